@@ -544,3 +544,38 @@ Example ex_search_run :
   map (map c_id) (search_run 5 7 [(1, A4 1 1)] [(1, repeat 0 19 ++ [5; 0;0;0;2;0;2] ++ repeat 0 19 ++ [6; 0;0;0;3;0;3])])
   = [[1]; [6]].
 Proof. vm_compute. reflexivity. Qed.
+
+(* ------------------------------------------------------------------ unresolved UDP tracker / repeated announces *)
+
+(* an unresolved connection accepts nothing: any sender, any transaction id, any length, any action *)
+Lemma unresolved_accepts_nothing : forall u from_ok dgram, router_read_dns false u from_ok dgram = (u, EvDrop).
+Proof. reflexivity. Qed.
+
+Lemma udp_pending_all_dropped : forall v6 other dgrams,
+  fst (udp_run_pending v6 other dgrams) = udp0 v6 other /\
+  snd (udp_run_pending v6 other dgrams) = repeat EvDrop (length dgrams).
+Proof.
+  intros v6 other dgrams. unfold udp_run_pending.
+  assert (G : forall ds u evs,
+             fold_left (fun st d => let '(u, evs) := st in
+                                    let '(u', e) := router_read_dns false u (fst d) (snd d) in (u', evs ++ [e])) ds (u, evs)
+             = (u, evs ++ repeat EvDrop (length ds))).
+  { induction ds as [|d ds IH]; intros u evs; [cbn; rewrite app_nil_r; reflexivity|].
+    cbn [fold_left length repeat]. cbn [router_read_dns]. rewrite IH, <- app_assoc. reflexivity. }
+  rewrite G. split; reflexivity.
+Qed.
+
+(* every announce starts with fresh per-request flags: a failing reply to a single-family announce is reported
+   through the failure slot whatever earlier announces on the same tracker object did *)
+Lemma http_announce_failure_is_failure : forall ih ev ts body msg,
+  snd (http_receive_done ih ev body ts) = EvFailure msg ->
+  snd (http_announce ih ev ts FamOne [body]) = [HEv (EvFailure msg)].
+Proof.
+  intros ih ev ts body msg H. unfold http_announce. cbn [fold_left]. unfold http_step. cbn [h_ts h_next h_last_ok h_last_err].
+  destruct (http_receive_done ih ev body ts) as [ts' e]. cbn [snd] in H. subst e. reflexivity.
+Qed.
+
+Example ex_announces :
+  snd (http_announces [] 2 [(FamBoth, [[100;53;58;112;101;101;114;115;48;58;101]; [100;53;58;112;101;101;114;115;48;58;101]]); (FamOne, [[60]])])
+  = [[HEv (EvNewPeers []); HEv (EvSuccess [])]; [HEv (EvFailure m_parse)]].
+Proof. vm_compute. reflexivity. Qed.
